@@ -53,6 +53,9 @@ func init() {
 					ts = append(ts, Task{Pkg: "qrcode/decoder", Func: "VerifC06QRVersionBlocks", Args: ints(v, which), Note: "matrix of version v's size; the top-right (0) or bottom-left (1) 18-bit version block free: the version read matches the matrix or is refused"})
 				}
 			}
+			for _, a := range [][3]int64{{0, 0, 0}, {0, 1, 0}, {0, 1, 1}, {0, 0, 1}, {1, 1, 0}, {1, 1, 1}, {1, 0, 1}} {
+				ts = append(ts, Task{Pkg: "oned", Func: "VerifC06Code39Short", Args: a[:], Note: "free data characters (0: start directly followed by stop), check-digit flag, extended flag"})
+			}
 			// 1-D rows cut after every module (all 32 alignments of the row end near the symbol's end)
 			for wi := int64(0); wi <= 10; wi++ {
 				if wi == 2 {
